@@ -132,6 +132,14 @@ def run(ctx):
             if nb <= 2:
                 rep.sample(dict(kind="tlc-behaviour", scenario=scns[b["scn"] - 1], schedule=sched, expect=dict(exec=b["exec"], first_requesters=b["retFalse"])))
     rep.note("edges exported %d, edge-covering walks %d, distinct visible schedules %d" % (nedges, len(walks), nb))
+    if ctx.quick and nb > 6000:
+        # quick tier: replay a seeded sample of the distinct schedules (TLC explored all of them; thorough replays all)
+        lines = open(bp).read().splitlines(True)
+        ctx.rng.shuffle(lines)
+        lines = lines[:6000]
+        open(bp, "w").writelines(lines)
+        nb = len(lines)
+        rep.note("guided replay of a seeded sample of %d schedules (seed %d)" % (nb, ctx.seed))
     # ---- 4. real code
     exe = vlib.build(ctx, "stop_driver", ["engines/stop/driver.cpp"], lib=["inplace_stop_token.cpp"])
     runs = [("guided", ["--mode", "guided", "--scenarios", sp, "--behaviours", bp], nb)]
